@@ -386,7 +386,7 @@ def run_chunk(chunk):
 
 
 def replay(case):
-    r = Result()
+    r = Result(keep_all=True)
     name = case["g"]
     tier = case.get("tier", "quick")
     g, cg, prepared, trees = _prepare(name, tier)
